@@ -115,6 +115,69 @@ func TestC04(t *testing.T) {
 	defer rec.Flush(t)
 	o := faultHistOpt()
 	kinds := append(append([]string{}, masterFaults...), clientFaults...)
+	// thorough tier: ENUMERATE one failing attempt = (kind x every fault point x pacing) on fixed history shapes
+	if thorough() {
+		idx, n, stop := 0, 0, false
+		shapes := []*hist.History{seqHistory([]int{0, 1, 4}, 1), seqHistory([]int{0, 7, 1, 5}, 6), seqHistory([]int{3, 2, 14, 0, 6}, 9)}
+		for _, h := range shapes {
+			l, err := h.Lay()
+			if err != nil {
+				continue
+			}
+			payloads, _, _ := l.Served(h.FirstFile, h.Base)
+			nsteps := len(payloads) + 1
+			ntx := len(l.Expected(hist.Pos{File: h.FirstFile, Off: h.Base}, 0))
+			for _, k := range kinds {
+				var points []int
+				switch {
+				case isMasterFault(k):
+					lo := 0
+					if k == "invalid" || k == "unsupported" || k == "undecodable" {
+						lo = 2
+					}
+					for i := lo; i < nsteps; i++ {
+						points = append(points, i)
+					}
+				case k == "cancel_out":
+					for i := 0; i <= nsteps; i++ {
+						points = append(points, i)
+					}
+				case k == "cancel_in" || k == "handler_err":
+					for i := 1; i <= ntx; i++ {
+						points = append(points, i)
+					}
+				default:
+					points = []int{1}
+				}
+				for _, at := range points {
+					for pacing := 0; pacing <= 1 && !stop; pacing++ {
+						for sub := 0; sub < 2 && !stop; sub++ {
+							idx++
+							if idx%envNShards != envShard {
+								continue
+							}
+							f := Fault{Kind: k, At: at, Sub: sub*3 + idx%3, ErrCode: 1236, Msg: "enumerated"}
+							if k == "mapper_cols" {
+								f.Sub = []int{-1, 1}[sub]
+							}
+							c := &FaultCase{H: h, Attempts: []AttemptSpec{{Fault: f, Pacing: pacing}}}
+							n++
+							journal("C04", "c04", c)
+							nt, err := checkC04(c)
+							rec.Case(nt, c, "enumerated", "fault/"+k, fmt.Sprintf("pacing=%d", pacing))
+							if err != nil {
+								rec.Violation("c04", c, "", err)
+								t.Errorf("C04 violation (enumerated scenario): %v", err)
+								stop = true
+							}
+						}
+					}
+				}
+			}
+		}
+		rec.Note("enumerated %d single-fault scenarios in this shard", n)
+		rec.MarkExhaustive("fault kind x every fault point x pacing on three fixed history shapes, one failing attempt then a clean one (thorough tier)")
+	}
 	rapidCheck(t, func(rt *rapid.T) {
 		c := &FaultCase{H: gen.History(rt, o)}
 		if rapid.IntRange(0, 3).Draw(rt, "mid_start") == 0 {
